@@ -111,6 +111,15 @@ func cmdCheck(args []string) int {
 	for _, m := range missing {
 		violate(m+"#target", "contract target missing", "the function named by a contract of this property no longer exists in "+repo, false)
 	}
+	var closureFns []string
+	closureSet := map[string]bool{}
+	if tier == "thorough" {
+		for _, c := range contractClosure(g, cs) {
+			closureFns = append(closureFns, c.Key)
+			closureSet[c.Key] = true
+			cs = append(cs, c)
+		}
+	}
 	frs := generateAll(g, cs)
 	lemmas := lemmaResults(g, id)
 	frs = append(frs, lemmas...)
@@ -192,7 +201,7 @@ func cmdCheck(args []string) int {
 		isKnown := false
 		if !r.OK {
 			for _, kf := range kfs {
-				if kf.Property == id && kf.Status == "open" && kf.Obligation == stripOrdinal(r.O.Name) {
+				if (kf.Property == id || closureSet[r.O.Fn]) && kf.Status == "open" && kf.Obligation == stripOrdinal(r.O.Name) {
 					isKnown = true
 					if !knownPrinted[kf.Obligation] {
 						knownPrinted[kf.Obligation] = true
@@ -274,6 +283,7 @@ func cmdCheck(args []string) int {
 			"checker_cmd":            "/verif/check " + id + " " + tier,
 			"trusted_base":           tb,
 			"functions_under_contract": funcs,
+			"callee_contracts_also_verified_in_this_tier": closureFns,
 			"discharged_by_solver":   bySolver,
 			"solver_time_s":          round3(solverTime),
 			"vacuity_probes_failed":  vacuous,
